@@ -161,3 +161,15 @@ def check_config(cfg, w, rep):
                           "`%s` calls the index insertion outside a commit with options %s (a removal must insert a None-integrity tombstone)" % (
                               short(lf.path), term_str(optt)[:100]), loc=span_str(t.span), config=cfg, rule="c-tombstone")
     rep.floor("tombstone_writers", n_tomb, 2 if is_async else 1, cfg)
+
+    # ---- (d) readers validate and skip: a torn tail is never mistaken for, and never hides, a record (reused C06 clauses) ----
+    from ..framework import Report
+    from . import c06
+    sub = Report("C06")
+    for p in R.bucket_readers:
+        c06.check_reader(cfg, w, sub, prog.fns[p])
+    for (c_, rule, k, desc, ok) in sub.obligations:
+        if ok:
+            rep.ob(cfg, "d/" + rule, k, desc)
+    for k, v in sub.violations.items():
+        rep.violation("d:%s" % k, v.msg, loc=v.loc, config=cfg, rule="d/" + (v.rule or ""), witness=v.witness)
